@@ -29,6 +29,7 @@ import (
 	"google.golang.org/grpc/internal/channelz"
 	istatus "google.golang.org/grpc/internal/status"
 	"google.golang.org/grpc/internal/transport"
+	"google.golang.org/grpc/internal/verifhook"
 	"google.golang.org/grpc/status"
 )
 
@@ -65,6 +66,7 @@ func (pw *pickerWrapper) updatePicker(p balancer.Picker) {
 		picker:     p,
 		blockingCh: make(chan struct{}),
 	})
+	verifhook.At("pw.close", pw)
 	close(old.blockingCh)
 }
 
@@ -109,6 +111,7 @@ func (pw *pickerWrapper) pick(ctx context.Context, failfast bool, info balancer.
 	pickBlocked := false
 
 	for {
+		verifhook.At("pw.load", pw)
 		pg := pw.pickerGen.Load()
 		if pg == nil {
 			return pick{}, ErrClientConnClosing
@@ -120,6 +123,7 @@ func (pw *pickerWrapper) pick(ctx context.Context, failfast bool, info balancer.
 			// This could happen when either:
 			// - pw.picker is nil (the previous if condition), or
 			// - we have already called pick on the current picker.
+			verifhook.At("pw.wait", pw)
 			select {
 			case <-ctx.Done():
 				var errStr string
@@ -154,6 +158,7 @@ func (pw *pickerWrapper) pick(ctx context.Context, failfast bool, info balancer.
 		ch = pg.blockingCh
 		p := pg.picker
 
+		verifhook.At("pw.pick", pw)
 		pickResult, err := p.Pick(info)
 		if err != nil {
 			if err == balancer.ErrNoSubConnAvailable {
@@ -181,6 +186,7 @@ func (pw *pickerWrapper) pick(ctx context.Context, failfast bool, info balancer.
 			logger.Errorf("subconn returned from pick is type %T, not *acBalancerWrapper", pickResult.SubConn)
 			continue
 		}
+		verifhook.At("pw.ready", pw)
 		if t := acbw.ac.getReadyTransport(); t != nil {
 			if channelz.IsOn() {
 				doneChannelzWrapper(acbw, &pickResult)
